@@ -10,7 +10,8 @@ EXTENDS Naturals, Sequences, TLC, Json
 
 CONSTANTS Observers,   \* e.g. {"print", "dump11", "traverse", "resolve"}
           MaxLen,      \* longest history
-          WithFormat   \* BOOLEAN: may the client also call Format
+          WithFormat,  \* BOOLEAN: may the client also call Format
+          Faulty       \* the observers that may also be run with a failing writer
 
 VARIABLES gen,      \* generation of the tree's structure (0 = as parsed)
           layout,   \* "orig" | "canon"
@@ -27,6 +28,13 @@ Observe(op) == /\ ~done /\ Len(hist) < MaxLen
                /\ obs' = Append(obs, <<op, gen, layout>>)     \* output = F_op(tree)
                /\ UNCHANGED <<gen, layout, done>>               \* observers never modify the tree
 
+\* an observation whose output writer fails part-way (full disk, closed pipe): the call ends early - the dumper panics with
+\* the writer's error and the caller recovers, the printer drops the error - and nothing is observed; the tree is as before
+\* and, the visitors being per-call objects, so is everything else: later observations are what they are on a fresh tree
+Fault(op) == /\ ~done /\ Len(hist) < MaxLen /\ op \in Faulty
+             /\ hist' = Append(hist, op \o "!")
+             /\ UNCHANGED <<gen, layout, obs, done>>
+
 Format == /\ WithFormat /\ ~done /\ Len(hist) < MaxLen
           /\ hist' = Append(hist, "format")
           /\ layout' = "canon"                                  \* canonical trivia, idempotent
@@ -37,7 +45,7 @@ Finish == /\ ~done /\ hist # <<>>
           /\ PrintT(ToJson([hist |-> hist]))
           /\ UNCHANGED <<gen, layout, hist, obs>>
 
-Next == (\E op \in Observers : Observe(op)) \/ Format \/ Finish
+Next == (\E op \in Observers : Observe(op) \/ Fault(op)) \/ Format \/ Finish
 Spec == Init /\ [][Next]_vars
 
 \* C13: after any sequence of operations every observer produces what it produces on a fresh tree
